@@ -101,9 +101,9 @@ theorem decode_plugin_map (fl : Flags) (env : Env) (pi : PInfo) (alts : Alts) (m
     (halt : altOf alts name = some (lzy, s)) (r : R) (hr : decode fl env s (.map (dropType m)) = r) :
     decode fl env (.plugin pi alts) (.map m) =
       if lzy then
-        { val := if pi.factory then .factory else .plugin, later := if (settle r).isEmpty then r.later else settle r }
-      else if (settle r).isEmpty then { val := if pi.factory then .factory else .plugin, later := r.later }
-      else { val := if pi.dfltSet then (if pi.factory then .factory else .plugin) else .nil, errs := settle r } := by
+        { val := if pi.factory then .factory r.val else .plugin r.val, later := if (settle r).isEmpty then r.later else settle r }
+      else if (settle r).isEmpty then { val := if pi.factory then .factory r.val else .plugin r.val, later := r.later }
+      else { val := if pi.dfltSet then (if pi.factory then .factory .opaque else .plugin .opaque) else .nil, errs := settle r } := by
   have hda : decodeAlt fl env alts name (.map (dropType m)) = some (lzy, r) := by
     rw [decodeAlt_eq, halt, ← hr]; rfl
   simp only [decode, hte, hname, hda, Bool.not_true, Bool.false_eq_true, if_false]
